@@ -54,6 +54,12 @@ class PyRaise(Exception):
         return getattr(self.etype, "__name__", str(self.etype))
 
 
+class StopUnit(Exception):
+    """raised by a callee contract of a *slice unit*: execution of the function
+    under contract stops here and the postcondition is evaluated on the current
+    locals (the rest of the function is covered by another unit)"""
+
+
 class _Return(Exception):
     def __init__(self, value):
         self.value = value
@@ -99,8 +105,84 @@ class Obligation:
         s.add(z3.Not(self.goal))
         return s.to_smt2()
 
+    def smt2_sliced(self):
+        """(path condition restricted to the cone of influence of the goal) and not
+        goal.  Conjuncts that share no symbol (transitively) with the goal are
+        dropped -- proving from fewer hypotheses is still a proof."""
+        goal_syms = _symbols(self.goal)
+        items = [(p, _symbols(p)) for p in self.pc]
+        keep = [False] * len(items)
+        frontier = set(goal_syms)
+        changed = True
+        while changed:
+            changed = False
+            for i, (p, syms) in enumerate(items):
+                if not keep[i] and syms & frontier:
+                    keep[i] = True
+                    frontier |= syms
+                    changed = True
+        s = z3.Solver()
+        n = 0
+        for i, (p, _) in enumerate(items):
+            if keep[i]:
+                s.add(p)
+                n += 1
+        s.add(z3.Not(self.goal))
+        return s.to_smt2(), n
+
     def has_quantified_pc(self):
         return any(_has_quantifier(p) for p in self.pc)
+
+
+_sym_cache = {}
+
+
+def _symbols(f):
+    """ids of the uninterpreted constants of f (function symbols of arity > 0 and
+    interpreted symbols do not count)"""
+    key = f.get_id()
+    if key in _sym_cache:
+        return _sym_cache[key]
+    out = set()
+    seen = set()
+    todo = [f]
+    while todo:
+        x = todo.pop()
+        i = x.get_id()
+        if i in seen:
+            continue
+        seen.add(i)
+        if z3.is_quantifier(x):
+            todo.append(x.body())
+            continue
+        if z3.is_app(x):
+            if x.num_args() == 0 and x.decl().kind() == z3.Z3_OP_UNINTERPRETED:
+                out.add(x.decl().name())
+            else:
+                todo.extend(x.children())
+    _sym_cache[key] = frozenset(out)
+    return _sym_cache[key]
+
+
+def _has_strings(f):
+    seen = set()
+    todo = [f]
+    ssort = z3.StringSort()
+    while todo:
+        x = todo.pop()
+        if x.get_id() in seen:
+            continue
+        seen.add(x.get_id())
+        if z3.is_quantifier(x):
+            todo.append(x.body())
+            continue
+        try:
+            if x.sort() == ssort:
+                return True
+        except Exception:
+            pass
+        todo.extend(x.children())
+    return False
 
 
 def _has_quantifier(f):
@@ -220,6 +302,7 @@ class Ctx:
         self.counter = {}
         self.solver = z3.Solver()
         self.solver.set("timeout", engine.feas_timeout_ms)
+        self.solver.set("rlimit", 3000000)     # resource limit: the time limit alone is not always honoured
         self.inputs = {}          # name -> z3 term (for counterexamples)
         self.stamp = 0
         self.writes = None        # set of heap uids written (loop frame check)
@@ -311,7 +394,11 @@ class Ctx:
         if z3.is_true(f):
             return
         self.pc.append(f)
-        self.solver.add(f)
+        # the solver used for path feasibility / simplification ignores string
+        # constraints (z3's sequence solver does not honour time limits reliably);
+        # dropping constraints only makes more paths look feasible, which is sound
+        if not _has_strings(f) and not _has_quantifier(f):
+            self.solver.add(f)
 
     def check(self, f, name, line=None, kind="check", info=None):
         """emit a proof obligation; afterwards the fact is assumed"""
@@ -340,6 +427,8 @@ class Ctx:
         self.assume(f)
 
     def feasible(self, f):
+        if _has_strings(f):
+            return True
         self.solver.push()
         self.solver.add(f)
         r = self.solver.check()
@@ -353,6 +442,8 @@ class Ctx:
             return True
         if z3.is_false(f):
             return False
+        if _has_strings(f):
+            return None
         self.solver.push()
         self.solver.add(z3.Not(f))
         r = self.solver.check()
@@ -515,7 +606,10 @@ class Interp:
         frame.old.__dict__["_ghost"] = dict(getattr(unit, "ghost", {}) or {})
         st = NS({"old": frame.old, "args": frame.locals, "frame": frame, "ctx": ctx})
         try:
-            result = self.exec_function_body(info.node, frame)
+            try:
+                result = self.exec_function_body(info.node, frame)
+            except StopUnit:
+                result = None
         except PyRaise as e:
             st.exc = e
             allowed = unit.raises(ctx, st, e)
@@ -882,7 +976,21 @@ class Interp:
             plans = [self.iter_plan(x) for x in it.inners]
             if all(p[0] == "concrete" for p in plans):
                 return ("concrete", list(zip(*[p[1] for p in plans])))
-            raise Unsupported("zip over symbolic sequences")
+            ns, getters = [], []
+            for p in plans:
+                if p[0] == "concrete":
+                    lst = p[1]
+                    ns.append(Z(len(lst)))
+                    getters.append(None)
+                    raise Unsupported("zip of concrete and symbolic sequences")
+                if p[0] != "sym":
+                    raise Unsupported("zip over a live map")
+                ns.append(p[1])
+                getters.append(p[2])
+            n = ns[0]
+            for m in ns[1:]:
+                n = z3.If(m < n, m, n)
+            return ("sym", z3.simplify(n), lambda i: tuple(g(i) for g in getters))
         if isinstance(it, SKeysView):
             m = it.map
             if m.order is None:
@@ -1374,6 +1482,9 @@ class Interp:
                         return fn(*args, **kwargs)
                     except Exception as ex:
                         raise PyRaise(type(ex), ex.args, node)
+        if getattr(fn, "__name__", "") == "join" and isinstance(getattr(fn, "__self__", None), str) \
+                and args and _has_sym(args[0]):
+            return self.models.str_join(self, fn.__self__, args[0])
         # "...{}...".format(x) with symbolic fields: structured string
         if getattr(fn, "__name__", "") == "format" and isinstance(getattr(fn, "__self__", None), str):
             return self.models.str_format(self, fn.__self__, args, kwargs)
